@@ -107,6 +107,17 @@ alone: the entries that survive (Go allows deleting during the range; every entr
 start is visited at most once and decided on its own). -/
 def keepOnly {α} (keep : α → Bool) (es : List α) : List α := es.filter keep
 
+/-! ## the order in which the IDLs of a `-r` run are rendered
+
+`FileManager.Feed` gives an output name to the first file that claims it and renames later ones
+(`x.go`, `x_1.go`, `x_2.go`, …): a consumer that is NOT invariant under permutation. The loop that feeds
+it must therefore run over a sequence (it ranges over the DepthFirstSearch channel), never over a map. -/
+
+/-- names given to files of different contents that all ask for `name`: the i-th gets suffix i (0 = none) -/
+def feedRename (name : Bytes) (contents : List Bytes) : List (Bytes × Bytes) :=
+  (List.range contents.length).zip contents |>.map fun (i, c) =>
+    (if i = 0 then name else name ++ [95] ++ decimal i, c)
+
 /-! ## first error wins -/
 
 /-- `for k := range m { if err := check(k); err != nil { return err } }`: does it return an error? -/
